@@ -54,11 +54,15 @@ Exit ==
      ELSE Ev.outcome = "panic" /\ Ev.cls = "count" /\ Ev.exp = s.n /\ Ev.act = s.cnt
   /\ s' = [s EXCEPT !.phase = "done"]
 
+\* lifetimes built through one shared fake!(.., times: 1) line, one call each, on many threads: each lifetime is a
+\* critical section (install = counter reset, one call, verdict), so no scope exit may ever complain
+Helper == Step("Helper") /\ Ev.failures = 0 /\ s' = s
+
 ChildExit == Step("ChildExit") /\ Ev.signal = 0 /\ Ev.code = 0 /\ s' = s
 Note == Step("Note") /\ s' = s
 Other == l <= Last(sc) /\ Ev.ev \in {"Mmap", "Munmap", "Mprotect", "Write", "Flush"} /\ l' = l + 1 /\ sc' = sc /\ s' = s
 
-TraceNext == TimesBegin \/ Burst \/ CallStart \/ CallEnd \/ Exit \/ ChildExit \/ Note \/ Other \/ (\E id \in DOMAIN s.open : Fire(id))
+TraceNext == TimesBegin \/ Helper \/ Burst \/ CallStart \/ CallEnd \/ Exit \/ ChildExit \/ Note \/ Other \/ (\E id \in DOMAIN s.open : Fire(id))
 TraceSpec == TraceInit /\ [][TraceNext]_tvars
 Track == TrackProgress(sc, l)
 Post == PrintProgress
